@@ -44,7 +44,7 @@ ACTIONS = ["StepDeref", "StepCont", "StepRsrc", "StepNd", "StepOut", "StepToc", 
 # Trace_Queries.cfg); a missing one means the model went blind, an extra one that a switch is stale.  Empty since all
 # nine deviations (outline.next.cycle, outline.first.cycle, outline.dest.short, nameddest.kids.cycle, nameddest.D.absent,
 # nameddest.key.notstring, nameddest.val.short, images.colorspace.empty, pages.count.huge) are repaired in lopdf.
-MODEL_CLASSES = {"outline.first.depth"}          # nameddest.kids.depth repaired by ebc2824
+MODEL_CLASSES = set()              # outline.first.depth repaired by 451d70b;          # nameddest.kids.depth repaired by ebc2824
 # (resources.parent.depth is repaired: fix eb0343c walks the Parent links in a loop; Dev_RsrcRecursion = FALSE in the as-is cfgs.)
 # The *.depth classes are the depth dimension (long ACYCLIC chains: the cycle guards end cycles, nothing bounds the depth of the
 # recursion on Parent / First / Kids).  In the MC runs they are produced by scenario "chain" with the machine stack and the
